@@ -73,6 +73,9 @@ func (c *Cluster) note(format string, a ...interface{}) {
 	c.Events = append(c.Events, fmt.Sprintf("@%d ", c.global.Load())+fmt.Sprintf(format, a...))
 }
 
+// Clock returns the current value of the cluster-wide request stamp.
+func (c *Cluster) Clock() int64 { return c.global.Load() }
+
 // Owner returns the node index serving slot.
 func (c *Cluster) Owner(slot int) int {
 	c.mu.Lock()
